@@ -708,7 +708,7 @@ class Array:
         else:
             if label < 0:
                 label += self.rank
-            if label > self.rank or label < 0:
+            if label >= self.rank or label < 0:
                 raise ValueError(f'axis {label:d} out of rank {self.rank:d}')
         return label
 
